@@ -101,6 +101,65 @@ claim("C12",
       "correspondence on interleavings of 2-3 agents sharing hosts (common exfiltration target, overlapping control) plus deep "
       "snapshots of all agents' stored views (aliasing is outside the value-semantic model: partial).", W_NOTE, W_TECH, "DESIGN.md section 7, C12")
 
+C_NOTE = ("Trusted: Coq kernel + VM; the hand-written LTS Model/Coord.v is tied to coordinator.py by the trace-following correspondence "
+          "(every atomic asyncio task step of real sessions is a label the model must enable and after which the whole observable state "
+          "must agree) and by the dispatch translator with per-run obligations (Obl/DispatchOk.v); the in-process loop driver relies on "
+          "CPython 3.12 asyncio internals; the cyst stub; the world is an oracle in the executable instance (tied separately, C02/C03); "
+          "asyncio scheduling is abstracted to 'any enabled atomic segment may run'; TCP to one message per read with explicit "
+          "EOF/read-error/write-error events.")
+C_TECH = "machine-checked proof in Rocq (Coq 8.16) over a labelled-transition-system model of the coordinator (inductive invariant for all label sequences) + trace-following model/code correspondence + source-shape translator + direct monitor"
+
+claim("C01",
+      "Rocq theorems for ALL label sequences (any number of agents, any messages, any interleaving of task steps): C01_tokens (token "
+      "conservation: an unanswered request is in exactly one of action queue / handler task / response queue; idle connections have "
+      "none), C01_alternation (responses never outnumber requests, at most one outstanding; QuitGame is answered by closing), "
+      "C01_queue_bound, C01_quiescent (when nothing can run, every awaited answer is held by a handler parked at one of the three "
+      "barriers with its wait unreleased), C01_parked_have_agents; per-run obligation C01_dispatch_total (every action type incl. "
+      "BlockIP is routed to a replying handler; default and parse-failure arms reply). Partial: that a parked barrier is *unmet* and "
+      "the termination measure are not proved; they are decided by the monitor (barrier conditions evaluated on the implementation's "
+      "tables at every quiescent point).", C_NOTE, C_TECH, "DESIGN.md section 7, C01")
+claim("C04",
+      "Rocq theorems (decision rules of the coordinator model, all states): C04_status (Success if goal, else Fail if detected, else "
+      "TimeoutReached at the step limit, else unchanged), C04_step (counters, end rule incl. 'no attacker playing any more', final "
+      "results wait at the rewards barrier), C04_reply, C04_absorbing (+frame: FORBIDDEN with the same view, reward, reason; no "
+      "counter changes), C04_defender_reason. Tie: trace-following correspondence; monitor: reference of the rule over all responses "
+      "(reference goal check independent of coordinator.goal_check).", C_NOTE, C_TECH, "DESIGN.md section 7, C04")
+claim("C05",
+      "Rocq theorems: C05_step, C05_bonus (bonus by role and outcome, marks the agent rewarded), C05_once (a rewarded agent is left "
+      "exactly as it is when the reward task fires again), C05_only_all_ended, C05_effect, C05_forbidden, C05_reset. Partial: the "
+      "'constant until reset across ALL labels' statement is decided by the monitor over every task step (reward of a rewarded agent "
+      "must not change outside the reset task) rather than by an inductive theorem.", C_NOTE, C_TECH, "DESIGN.md section 7, C05")
+claim("C06",
+      "Rocq theorems: C06_end (handlers waiting for the end are released only by the reward task, which does nothing unless every "
+      "agent in the game has finished), C06_end_all (then all are released in one step: no lost wake-up), C06_quiescent, C06_nonfinal "
+      "(non-final observations are answered in the segment that executed the action). Join barrier: decided by the trace-following "
+      "correspondence and the quiescence monitor (partial).", C_NOTE, C_TECH, "DESIGN.md section 7, C06")
+claim("C07",
+      "Rocq theorems: C07_collective (the reset task does nothing unless the game is non-empty and every agent has asked), "
+      "C07_voluntary (an agent that has not asked keeps its whole record across any run of the reset task), C07_fresh, C07_done. "
+      "Monitor: reset steps and foreign changes of steps/view/end flag in every task step.", C_NOTE, C_TECH, "DESIGN.md section 7, C07")
+claim("C09",
+      "Rocq theorems: C09_garbage / C09_reject (every bad request - garbage, second join, join without agent_info or with an unknown "
+      "role, game/reset before joining, invalid parameters - is answered BAD_REQUEST), C09_frame (and changes nothing but the "
+      "sender's response queue: agents, world, events, files, other connections untouched), C09_alive, C09_no_replay; per-run "
+      "obligations on the dispatcher source (parse failure replies and continues; default arm replies).", C_NOTE, C_TECH, "DESIGN.md section 7, C09")
+claim("C10",
+      "Rocq theorems: C10_forget (after the quit handler the address is in no per-agent table and every other agent's record is "
+      "exactly as before), C10_slot/C10_count (slot released exactly once; counter = live connections in every reachable state), "
+      "C10_tokens (a closed connection leaves only its forwarded QuitGame), C10_barriers, C10_rejoin; per-run obligation: every "
+      "abnormal end of a connection forwards QuitGame. Partial: a peer vanishing while its request is parked is seen only at the next "
+      "I/O (TCP/asyncio).", C_NOTE, C_TECH, "DESIGN.md section 7, C10")
+claim("C16",
+      "Rocq theorems: C16_step (the triple appended to the trajectory is produced in the same step and with the same reward as the OK "
+      "response), C16_refused, C16_frame, C16_handout, C16_files. Monitor: last_trajectory of every RESET_DONE compared with the log "
+      "of OK responses the harness received; trajectory files compared with the model after every step (sessions run in a scratch "
+      "working directory without a trajectories folder).", C_NOTE, C_TECH, "DESIGN.md section 7, C16")
+claim("C18",
+      "Rocq theorems for all label sequences: C18_bound (served connections <= required players in every reachable state), C18_count "
+      "(the counter equals the number of connections being served: every end gave its slot back exactly once), C18_reject, "
+      "C18_admit, C18_release; per-run obligations on the connection handler source (admission check, cleanup, limit = required "
+      "players). Real sockets are not exercised (in-memory streams).", C_NOTE, C_TECH, "DESIGN.md section 7, C18")
+
 
 def main():
     hooks = {
